@@ -9,6 +9,9 @@ import FM.Model.Ellipses
 import FM.Model.Render
 import FM.Base.Sexp
 import FM.Model.BlockStart
+import FM.Model.TagSeg
+import FM.Model.Scan
+import FM.Model.FullWrap
 /-
   One operation per input line, one canonical answer per output line.
 -/
@@ -140,6 +143,41 @@ def step (line : String) : String :=
   | ["interrupts", ws] => match decList ws with
       | some ws => encBool (interruptsPara ws)
       | none => bad
+  | ["mdwrap", t, i0, s0] =>
+      match decStr t, decStr i0, decStr s0 with
+      | some t, some i0, some s0 =>
+        let sym : LineWrapper := fun t i0 s0 => Char.ofNat 1 :: i0 ++ Char.ofNat 2 :: s0 ++ Char.ofNat 2 :: t ++ [Char.ofNat 3]
+        encStr (mdLineWrapper sym t i0 s0)
+      | _, _, _ => bad
+  | ["preprocess", t] => match decStr t with
+      | some t => encStr (preprocessTagBlockSpacing t)
+      | none => bad
+  | ["fixclosing", t] => match decStr t with
+      | some t => encStr (fixClosingTagSpacing t)
+      | none => bad
+  | ["fixmultiline", t] => match decStr t with
+      | some t => encStr (fixMultilineOpening t)
+      | none => bad
+  | ["atoms", t] => match decStr t with
+      | some t => ",".intercalate ((atomSpans t.length t 0).map fun (a, b) => s!"{a}-{b}")
+      | none => bad
+  | ["mdsplit", t] => match decStr t with
+      | some t => encList (mdSplit t)
+      | none => bad
+  | ["fullwrap", mode, w, ml, i0, s0, t, fl] =>
+      -- fl: per character of t one digit 0..7 = letter*1 + lower*2 + word*4 (classes for SENTENCE_END_RE)
+      match decInt w, decNat ml, decStr i0, decStr s0, decStr t with
+      | some w, some ml, some i0, some s0, some t =>
+        let ds := fl.toList.map (fun c => c.toNat - '0'.toNat)
+        if ds.length != t.length then bad else
+        let tbl := t.zip ds
+        let look (c : Char) : Nat := match tbl.find? (·.1 == c) with | some (_, d) => d | none => 0
+        let cls : CharCls := { letter := fun c => look c % 2 == 1, lower := fun c => (look c / 2) % 2 == 1,
+                               word := fun c => (look c / 4) % 2 == 1 }
+        if mode == "fill" then encStr (mdFillWrapper w t i0 s0)
+        else if mode == "sentence" then encStr (mdSentenceWrapper cls w ml t i0 s0)
+        else bad
+      | _, _, _, _, _ => bad
   | _ => bad
 
 partial def loop (hin hout : IO.FS.Stream) : IO Unit := do
